@@ -114,6 +114,7 @@ func (a *Analyzer) onStateChange(n *nodeState, r *ev.Rec) {
 		}
 		a.rep.Stats["leader-completeness-checks"] += int64(len(cm))
 		n.rounds = map[uint64]bool{}
+		n.roundDone = map[uint64]uint64{}
 		n.leaderSince = r.Q
 	}
 	if st.State != "C" {
@@ -380,6 +381,10 @@ func (a *Analyzer) onRound(n *nodeState, r *ev.Rec) {
 	}
 	a.stat("rounds-completed")
 	n.rounds[r.ID] = true
+	if n.roundDone == nil {
+		n.roundDone = map[uint64]uint64{}
+	}
+	n.roundDone[r.ID] = r.Round
 	// the promoted-to-be node holds the leader's log up to the round's target
 	t := a.nodes[nodeKey{n.key.cid, r.ID}]
 	if t != nil && r.RLast > 0 {
@@ -402,7 +407,12 @@ func (a *Analyzer) onCfgAction(n *nodeState, r *ev.Rec) {
 	if r.Act == "promote" {
 		if !n.rounds[r.ID] {
 			a.find("C11", "promotion-without-completed-round", "", r.Q, "leader %s promotes %d without a completed catch-up round", n.key, r.ID)
+		} else if r.Round > n.roundDone[r.ID] {
+			// the leader has begun another round (the previous one was too slow
+			// and new entries had arrived) and promotes before that round is over
+			a.find("C11", "promotion-before-its-round-completed", "", r.Q, "leader %s promotes %d in round %d (target index %d, the node's match index is %d), but the last round it reported complete for that node is %d", n.key, r.ID, r.Round, r.RLast, r.Match, n.roundDone[r.ID])
 		}
+		a.stat("promotions-checked-against-rounds")
 		a.sample("promotion", fmt.Sprintf("leader %s promotes %d: match=%d round=%d target=%d leader-last=%d", n.key, r.ID, r.Match, r.Round, r.RLast, n.last))
 	}
 	if r.St != nil && r.St.Xfer {
